@@ -1,3 +1,25 @@
+//! mc-misc: bounded-exhaustive engines for
+//!   C35 (rten-imageproc polygon algorithms),
+//!   C36 (rten-imageproc contour tracing + drawing primitives),
+//!   C39 (rten::ctc greedy / beam decoding).
+//!
+//! `mc-misc <Cnn> [quick|thorough] [--replay <file>]`
+//! `mc-misc --worker c36draw` is the isolated child used by the C36 drawing sweep.
+
+mod c35;
+mod c36;
+mod c39;
+mod util;
+
 fn main() {
-    vp_core::machinery_error("engine not built yet");
+    if vp_core::isolate::worker_name().as_deref() == Some("c36draw") {
+        c36::worker_main();
+    }
+    let prop = std::env::args().nth(1).unwrap_or_default();
+    match prop.as_str() {
+        "C35" => c35::run(vp_core::Ctx::from_env("C35")),
+        "C36" => c36::run(vp_core::Ctx::from_env("C36")),
+        "C39" => c39::run(vp_core::Ctx::from_env("C39")),
+        _ => vp_core::machinery_error("unknown property (mc-misc serves C35, C36, C39)"),
+    }
 }
